@@ -172,7 +172,9 @@ def main():
                 pout = lr.strip()
                 if pout[:2] in ("1 ", "0 "):
                     pout = pout[2:]
-                if pin != pout and pout != "":
+                if lo.startswith("ca nop"):
+                    nontrivial += 1 if len(lo.split()) > 2 else 0   # oracle-only case with its own descriptor
+                elif pin != pout and pout != "":
                     nontrivial += 1
                 if i % max(1, r["cases"] // 3) == 0 and len(samples) < 12:
                     samples.append({"stream": stream, "op": vlib.clip(lo.strip(), 300), "real": vlib.clip(lr.strip(), 200)})
